@@ -13,10 +13,33 @@ package lease_set
 //@ import "github.com/go-i2p/common/keys_and_cert"
 //@ import "github.com/go-i2p/common/destination"
 //@ import "github.com/go-i2p/common/key_certificate"
+//@ import sig "github.com/go-i2p/common/signature"
 
 //@ loop extractLeases 0: unroll 16
 //@ loop LeaseSet.Bytes 0: concrete 16
 //@ loop serializeLeaseSetData 0: concrete 16
+
+// ---- C05: Verify() == nil means the signature is valid under the
+// Destination's signing key over the serialisation without the signature.
+//@ spec func LSInv(ls LeaseSet) bool {
+//@   return ls.dest.KeysAndCert == nil || (keys_and_cert.KacInv(ls.dest.KeysAndCert) && ls.encryptionKey != nil && ls.signingKey != nil)
+//@ }
+
+//@ contract (lease_set LeaseSet) Bytes() (b []byte, err error)
+//@   pure
+//@   requires LSInv(lease_set)
+//@   ensures fresh(b)
+//@   modifies nothing
+
+//@ spec func LSSigned(ls LeaseSet) []byte {
+//@   b, _ := ls.Bytes()
+//@   return sub(b, 0, len(b)-len(sig.SigData(ls.signature)))
+//@ }
+
+//@ contract (lease_set LeaseSet) Verify() (err error)
+//@   requires LSInv(lease_set)
+//@   ensures @C05 err == nil ==> sigvalid(lease_set.dest.KeysAndCert.SigningPublic.Bytes(), LSSigned(lease_set), sig.SigData(lease_set.signature))
+//@   modifies nothing
 
 // C01: re-serialising an accepted LeaseSet reproduces the bytes it was parsed
 // from (ReadLeaseSet returns no remainder: it consumes up to the end of the
